@@ -407,7 +407,12 @@ func c13Run(c *Ctx) {
 	if secName != "" {
 		text = "[" + secName + "]\n"
 	}
-	if secName != "" && len(iniLines) >= 2 && r.Chance(1, 3) {
+	if secName != "" && r.Chance(1, 5) {
+		// the section's header appears first without entries (only a comment, or another section in between) and
+		// is opened again later: its entries still count once each
+		text += r.Pick([]string{"; nothing yet\n", "", "# later\n\n"})
+		text += "[" + secName + "]\n" + strings.Join(iniLines, "\n") + "\n"
+	} else if secName != "" && len(iniLines) >= 2 && r.Chance(1, 3) {
 		// the same section re-opened: its entries still count once each
 		k := r.Range(1, len(iniLines)-1)
 		text += strings.Join(iniLines[:k], "\n") + "\n[" + secName + "]\n" + strings.Join(iniLines[k:], "\n") + "\n"
